@@ -33,6 +33,21 @@ fn vals(g: &mut Gen, e: &str, n: usize) -> String {
 }
 
 const LIST_VIAS: [&str; 4] = ["into_iter", "cloned", "matrix_column", "tensor_iter"];
+/// iterator sources whose `size_hint` is not the exact remaining length (`mean`, `variance` and
+/// `softmax` take any `Iterator<Item = T>` and must not depend on the hint); usable for every
+/// length, the empty one included
+const HINT_VIAS: [&str; 8] = ["filter", "filter_map", "take_while", "skip_while", "chain", "nohint", "loosehint", "chain_filter"];
+
+fn pick_list_via(g: &mut Gen, n: usize) -> &'static str {
+    // half of the time one of the inexact-hint sources
+    if g.rng.chance(1, 2) {
+        HINT_VIAS[g.rng.below(HINT_VIAS.len())]
+    } else if n == 0 {
+        LIST_VIAS[g.rng.below(2)]
+    } else {
+        LIST_VIAS[g.rng.below(4)]
+    }
+}
 const COVT_VIAS_PLAIN: [&str; 9] = ["fn-t", "fn-rt", "fn-v", "fn-rv", "fn-bv", "fn-rbv", "m-t", "m-v", "m-bv"];
 const COVT_VIAS_ACCESS: [&str; 6] = ["fn-av", "fn-rav", "fn-bv", "fn-rbv", "m-av", "m-bv"];
 const COVT_VIAS_BOXED: [&str; 3] = ["fn-bv", "fn-rbv", "m-bv"];
@@ -44,13 +59,28 @@ fn gen_lists(g: &mut Gen) {
         for n in 0..=max {
             for rep in 0..(if g.thorough { 4 } else { 2 }) {
                 let v = vals(g, e, n);
-                let via = if n == 0 { LIST_VIAS[rep % 2] } else { LIST_VIAS[g.rng.below(4)] };
+                let _ = rep;
+                let via = pick_list_via(g, n);
                 g.op(format!("mean {} via={}", v, via));
-                let via = if n == 0 { LIST_VIAS[(rep + 1) % 2] } else { LIST_VIAS[g.rng.below(4)] };
+                g.count(&format!("mean.via.{}", via));
+                let via = pick_list_via(g, n);
                 g.op(format!("variance {} via={}", v, via));
+                g.count(&format!("variance.via.{}", via));
                 g.count(&format!("list.length={}", n));
                 g.count(&format!("list.ety={}", e));
             }
+        }
+        // every iterator source on the same data: all must give the one answer
+        let v = vals(g, e, 5);
+        for via in LIST_VIAS.iter().chain(HINT_VIAS.iter()) {
+            g.op(format!("mean {} via={}", v, via));
+            g.op(format!("variance {} via={}", v, via));
+            g.count(&format!("mean.via.{}", via));
+            g.count(&format!("variance.via.{}", via));
+        }
+        for via in HINT_VIAS.iter() {
+            g.op(format!("mean - via={}", via));
+            g.op(format!("variance - via={}", via));
         }
         // all-equal data (variance 0) and two-point data
         let x = val(g, e);
@@ -175,7 +205,8 @@ fn gen_softmax(g: &mut Gen) {
                 }
                 let v: Vec<String> = ranks.iter().map(|&r| pool[r].0.to_string()).collect();
                 let distinct = { let mut r = ranks.clone(); r.sort(); r.dedup(); r.len() };
-                g.op(format!("softmax {} via={}", v.join(","), LIST_VIAS[code % 4]));
+                let via = if code % 3 == 2 { HINT_VIAS[(code / 3) % HINT_VIAS.len()] } else { LIST_VIAS[code % 4] };
+                g.op(format!("softmax {} via={}", v.join(","), via));
                 g.count(&format!("softmax.length={}", n));
                 g.count(&format!("softmax.signs.{}", sign));
                 g.count(if distinct == n { "softmax.all_distinct" } else { "softmax.with_ties" });
@@ -189,8 +220,8 @@ fn gen_softmax(g: &mut Gen) {
     for _ in 0..(if g.thorough { 60 } else { 15 }) {
         let n = g.rng.range(5, 9);
         let v = vals(g, "fp", n);
-        let k = g.rng.below(4);
-        g.op(format!("softmax {} via={}", v, LIST_VIAS[k]));
+        let via = pick_list_via(g, n);
+        g.op(format!("softmax {} via={}", v, via));
         g.count("softmax.random_long");
     }
     // f64 sanity oracle on large magnitudes (finite, non-negative, sums to ~1); never compared
@@ -222,6 +253,79 @@ pub fn gen(g: &mut Gen) {
 // ---------------------------------------------------------------------------------------------
 // execution against the implementation
 // ---------------------------------------------------------------------------------------------
+
+/// an iterator over a `Vec` that reports a chosen `size_hint`
+struct Hinted<T> {
+    inner: std::vec::IntoIter<T>,
+    loose: Option<usize>,
+}
+impl<T> Iterator for Hinted<T> {
+    type Item = T;
+    fn next(&mut self) -> Option<T> {
+        self.inner.next()
+    }
+    fn size_hint(&self) -> (usize, Option<usize>) {
+        match self.loose {
+            None => (0, None),
+            Some(extra) => (0, Some(self.inner.len() + extra)),
+        }
+    }
+}
+
+/// `data` through an iterator whose `size_hint` is not its exact length (`junk` elements are
+/// interleaved and removed again by the adaptor)
+fn inexact_iter<T: Clone + 'static>(data: Vec<T>, via: &str, junk: T) -> Box<dyn Iterator<Item = T>> {
+    let tagged = |keep: bool, v: Vec<T>| v.into_iter().map(move |x| (keep, x));
+    match via {
+        "filter" => {
+            let mut all: Vec<(bool, T)> = vec![(false, junk.clone())];
+            for x in data {
+                all.push((true, x));
+                all.push((false, junk.clone()));
+            }
+            Box::new(all.into_iter().filter(|p| p.0).map(|p| p.1))
+        }
+        "filter_map" => {
+            let mut all: Vec<Option<T>> = vec![];
+            for x in data {
+                all.push(None);
+                all.push(Some(x));
+            }
+            all.push(None);
+            all.push(None);
+            Box::new(all.into_iter().filter_map(|p| p))
+        }
+        "take_while" => {
+            let tail = vec![junk.clone(), junk.clone(), junk];
+            Box::new(tagged(true, data).chain(tagged(false, tail)).take_while(|p| p.0).map(|p| p.1))
+        }
+        "skip_while" => {
+            let head = vec![junk.clone(), junk];
+            Box::new(tagged(false, head).chain(tagged(true, data)).skip_while(|p| !p.0).map(|p| p.1))
+        }
+        "chain" => {
+            let mut a = data;
+            let b = a.split_off(a.len() / 2);
+            Box::new(a.into_iter().chain(b.into_iter()))
+        }
+        "chain_filter" => {
+            let mut a = data;
+            let b = a.split_off(a.len() / 2);
+            let junk2 = junk.clone();
+            Box::new(
+                tagged(true, a)
+                    .chain(std::iter::once((false, junk)))
+                    .chain(tagged(true, b))
+                    .chain(std::iter::once((false, junk2)))
+                    .filter(|p| p.0)
+                    .map(|p| p.1),
+            )
+        }
+        "nohint" => Box::new(Hinted { inner: data.into_iter(), loose: None }),
+        "loosehint" => Box::new(Hinted { inner: data.into_iter(), loose: Some(7) }),
+        other => panic!("unknown via {}", other),
+    }
+}
 
 fn show_value<T: Elem>(r: Result<T, PanicKind>) -> String {
     match r {
@@ -261,7 +365,10 @@ macro_rules! stats_for {
                         let r = f(&mut t.iter());
                         r
                     }
-                    other => panic!("unknown via {}", other),
+                    other => {
+                        let mut it = inexact_iter(data, other, <T as Elem>::parse("7"));
+                        f(&mut *it)
+                    }
                 }
             }
 
@@ -349,11 +456,12 @@ fn softmax_fp(vals: &str, via: &str) -> String {
             let m = Matrix::from_flat_row_major((n, 1), data);
             linear_algebra::softmax(m.column_iter(0))
         }
-        _ => {
+        "tensor_iter" => {
             let n = data.len();
             let t = Tensor::from([("x", n)], data);
             linear_algebra::softmax(t.iter())
         }
+        other => linear_algebra::softmax(inexact_iter(data, other, Fp::new(7))),
     });
     match r {
         Ok(v) => format!("data={}", show_list(&v)),
